@@ -78,7 +78,20 @@ def expand(spec):
         keys.append("off")
     if spec.get("fun", False):
         keys += ["FUN_d0", "FUN_d1"]
+    at = spec.get("auto_temps")
+    if at and "auto" in spec["modes"]:
+        # auto-mode entries that carry a temperature (they exist in real databases and count for the reported range)
+        keys += [f"aa{t}_f0" for t in at if 10 <= t <= 99]
     keys.sort(key=lambda k: _h(seed, k, "o"))
+    if spec.get("lonely_min"):
+        # database order in which the lowest temperature occurs exactly once and is the first temperature listed
+        for m in spec["modes"]:
+            if m in ("cool", "heat"):
+                base = f"{MODE_CODE[m]}{spec['tmin']}"
+                keys = [k for k in keys if not (k[2:4] == str(spec["tmin"]) and k[0:2] in ("ar", "ah"))
+                        and not (k.startswith("on_") and k[5:7] == str(spec["tmin"]))]
+                keys.insert(0, base)
+                break
     waves = []
     lens = spec.get("lens", "short")
     for k in keys:
